@@ -458,7 +458,7 @@ fn hash_components(args: &[String]) -> i32 {
 
 // ------------------------------------------------------------------------------------------------ C12
 fn budget(_args: &[String]) -> i32 {
-    let mut rep = Report::new("budget", "grid: clock,inc in {0,1,2,49,50,999,1000,4999,5000,5001,60000,3600000, 2^40} x opponent values x 24 token orders x 2 colours; + each clock pair with movestogo 1/2/40, nodes, ponder, mate before or after the clocks (bound only)");
+    let mut rep = Report::new("budget", "grid: clock,inc in {0,1,2,49,50,999,1000,4999,5000,5001,60000,3600000, 2^40} x opponent values x 24 token orders x 2 colours; + each clock pair with movestogo 1/2/40, nodes, ponder, mate before or after the clocks (bound only); + sessions: an earlier go (depth-limited, on long / short clocks, once or twice) then a clocked go - the budget the search is armed with, through the real handler");
     let vals: [u64; 13] = [0, 1, 2, 49, 50, 999, 1000, 4999, 5000, 5001, 60000, 3_600_000, 1 << 40];
     let opp: [(u64, u64); 3] = [(0, 0), (3_600_000, 0), (7, 1 << 40)];
     let orders: Vec<Vec<usize>> = { let mut v = Vec::new(); let idx = [0usize, 1, 2, 3];
@@ -501,6 +501,28 @@ fn budget(_args: &[String]) -> i32 {
         } }
     }
     rep.sample(jstr("go wtime 100 btime 3600000 winc 5000 binc 0 (white to move)"));
+    // Through the real `go` handler, in SESSIONS: what the search is armed with (Searcher::verif_time_limit, the value handed to
+    // find_best_move) must fit in the mover's clock whatever was searched before - an earlier `go` that ended early, on a long
+    // or a short clock, for either side. (Depth-one searches, so that every `go` of the session returns at once.)
+    let firsts = ["go depth 1 wtime 60000 btime 60000 winc 0 binc 0", "go depth 1 wtime 3600000 btime 3600000 winc 30000 binc 30000", "go depth 1 movetime 5000", "go depth 2"];
+    let seconds: [(u64, u64); 6] = [(300, 0), (800, 0), (1, 0), (5000, 0), (100, 5000), (60000, 1000)];
+    for white in [true, false] { for first in firsts { for twice in [false, true] { for &(t, inc) in &seconds {
+        let mut fl = Flounder::new();
+        fl.verif_handle_command(if white { "position startpos" } else { "position startpos moves e2e4" });
+        fl.verif_handle_command(first);
+        if twice { fl.verif_handle_command(first); }
+        let cmd = format!("go depth 1 wtime {} btime {} winc {} binc {}", if white { t } else { 7 }, if white { 7 } else { t }, if white { inc } else { 0 }, if white { 0 } else { inc });
+        fl.verif_handle_command(&cmd);
+        rep.evals += 1;
+        let armed = fl.verif_searcher().verif_time_limit().map(|d| d.as_millis());
+        let bad = match armed { Some(ms) => ms > t as u128 || (t > 0 && ms >= t as u128), None => true };
+        if bad {
+            rep.violation = Some(format!("{{\"input\": {{\"session\": [{}{}, {}], \"white_to_move\": {}}}, \"real\": {{\"search_armed_with_ms\": {}}}, \"expected\": {}}}",
+                jstr(first), if twice { format!(", {}", jstr(first)) } else { String::new() }, jstr(&cmd), white,
+                armed.map(|m| m.to_string()).unwrap_or("null".into()), jstr(&format!("a budget <= own clock {} and < it when > 0", t))));
+            return rep.finish();
+        }
+    } } } }
     rep.finish()
 }
 
@@ -712,7 +734,7 @@ fn uci_process(args: &[String]) -> i32 {
     let n = num_arg(args, "sessions", 40);
     let maxlen = num_arg(args, "lines", 14);
     let wait_s = num_arg(args, "wait", 20) as u64;
-    let mut rep = Report::new("uci-process", &format!("the empty session, the four single-command sessions and {} pseudo-random sessions (seed {}) of <= {} lines over a vocabulary of known commands, unknown UCI commands (stop, debug, setoption, register, ponderhit), garbage, blank and white-space lines, a line that is not valid UTF-8 (shown as <INVALID-UTF8>), wrong-case commands; each ended by quit or by end of input; stdout compared line by line, exit status 0 within {} s", n, seed, maxlen, wait_s));
+    let mut rep = Report::new("uci-process", &format!("the empty session, the four single-command sessions and {} pseudo-random sessions (seed {}) of <= {} lines over a vocabulary of known commands, unknown UCI commands (stop, debug, setoption, register, ponderhit), garbage, blank and white-space lines, a line that is not valid UTF-8 (shown as <INVALID-UTF8>), wrong-case commands; + 6 sessions of long lines with multi-byte characters at every byte offset after debug on / debug off / a setoption; each ended by quit or by end of input; stdout compared line by line, exit status 0 within {} s", n, seed, maxlen, wait_s));
     let vocab = ["uci", "isready", "ucinewgame", "", "   ", "\t", "stop", "debug on", "setoption name Hash value 16", "register later", "ponderhit",
         "xyzzy", "hello world 1 2 3", "UCI", "IsReady", "isready now", "  isready  ", "uci\tuci", "quitt", "position", "position startpos",
         "position startpos moves e2e4 e7e5", "go depth 1", "go depth 2", "position fen 7k/5Q2/6K1/8/8/8/8/8 b - - 0 1", "go movetime 0", "bestmove e2e4", "readyok", "uciok", "id name x",
@@ -721,6 +743,18 @@ fn uci_process(args: &[String]) -> i32 {
     let mut next = |m: usize| -> usize { rng ^= rng << 13; rng ^= rng >> 7; rng ^= rng << 17; (rng % m as u64) as usize };
     let mut sessions: Vec<(Vec<String>, bool)> = vec![(vec![], false), (vec![], true), (vec!["uci".into()], false), (vec!["isready".into()], false),
         (vec!["ucinewgame".into()], false), (vec!["nonsense".into()], false), (vec!["uci".into(), "isready".into()], true), (vec!["<INVALID-UTF8>".into(), "isready".into()], false)];
+    // long lines with multi-byte characters at every byte offset (unknown commands, and arguments of known ones), after the
+    // optional-protocol switches an engine may or may not implement: none of it may change what isready gets for an answer
+    for pre in ["debug on", "debug off", "setoption name UCI_AnalyseMode value true"] {
+        let mut lines: Vec<String> = vec![pre.to_string()];
+        for pad in 0..44usize { lines.push(format!("setoption name F{} value \u{00fc}\u{4e2d}\u{00e9}\u{1f600} tail", "x".repeat(pad))); if pad % 11 == 10 { lines.push("isready".into()); } }
+        lines.push("isready".into());
+        sessions.push((lines, false));
+        let mut l2: Vec<String> = vec![pre.to_string()];
+        for pad in [0usize, 5, 13, 27, 31, 32, 33, 40] { l2.push(format!("{}\u{00e4}\u{00f6} unknown words \u{4e2d}\u{6587}", "y".repeat(pad))); }
+        l2.push("isready".into());
+        sessions.push((l2, true));
+    }
     for _ in 0..n {
         let len = 1 + next(maxlen);
         let lines: Vec<String> = (0..len).map(|_| vocab[next(vocab.len())].to_string()).collect();
@@ -792,7 +826,7 @@ fn overrun(args: &[String]) -> i32 {
     let bound = num_arg(args, "bound", 70) as u64;
     let fens = ["8/PPPPPP1k/8/8/8/8/pppppp1K/8 w - - 0 1", "r3k2r/p1ppqpb1/bn2pnp1/3PN3/1p2P3/2N2Q1p/PPPBBPPP/R3K2R w KQkq - 0 1",
                 "rnbqkbnr/pppppppp/8/8/8/8/PPPPPPPP/RNBQKBNR w KQkq - 0 1", "n1n5/PPPk4/8/8/8/8/4Kppp/5N1N b - - 0 1"];
-    let mut rep = Report::new("overrun", &format!("{} positions x node limits 1..3000 step 7: nodes expanded after the first expired poll <= {} (depth 64)", fens.len(), bound));
+    let mut rep = Report::new("overrun", &format!("{} positions x node limits 1..3000 step 7: nodes expanded after the first expired poll <= {} (depth 64); + the same deadlines on a searcher that has just completed a depth-3 search (3 positions)", fens.len(), bound));
     for fen in fens {
         let board = Board::new(fen);
         let mut n = 1u64;
@@ -813,6 +847,29 @@ fn overrun(args: &[String]) -> i32 {
             n += 7;
         }
         rep.sample(jstr(fen));
+    }
+    // "at every point of the search" includes a search that follows other searches on the same engine: a completed deeper search
+    // first (thousands of nodes), then deadlines at small node counts on the SAME searcher
+    for fen in ["rnbqkbnr/pppppppp/8/8/8/8/PPPPPPPP/RNBQKBNR w KQkq - 0 1", "r3k2r/p1ppqpb1/bn2pnp1/3PN3/1p2P3/2N2Q1p/PPPBBPPP/R3K2R w KQkq - 0 1", "8/2p5/3p4/KP5r/1R3p1k/8/4P1P1/8 w - - 0 1"] {
+        let board = Board::new(fen);
+        let mut s = Searcher::new();
+        let _ = s.find_best_move(&board, 3, None);
+        let before = s.verif_nodes();
+        for n in [1u64, 50, 400, 2000, 2500] {
+            verif_hook::set_node_limit(Some(n));
+            let _ = s.find_best_move(&board, 64, Some(std::time::Duration::from_secs(3600)));
+            let total = s.verif_nodes();
+            let first = verif_hook::first_stop_at();
+            verif_hook::set_node_limit(None);
+            rep.evals += 1;
+            // (the hook records the node count at the first expired poll; a poll that comes late shows up as total - limit)
+            let over = total.saturating_sub(first.unwrap_or(total).min(n.max(1)));
+            if over > bound + 1 {
+                rep.violation = Some(format!("{{\"input\": {{\"fen\": {}, \"earlier_search\": \"depth 3, no limit, {} nodes, same searcher\", \"node_limit\": {}}}, \"real\": {{\"nodes_expanded\": {}, \"nodes_after_deadline\": {}}}, \"expected\": {{\"at_most\": {}}}}}", jstr(fen), before, n, total, over, bound));
+                return rep.finish();
+            }
+        }
+        rep.distinct += 1;
     }
     rep.finish()
 }
@@ -887,7 +944,7 @@ fn tables(_args: &[String]) -> i32 {
 // ------------------------------------------------------------------------------------------------ C14
 fn eval_cmd(args: &[String]) -> i32 {
     let seed = seed_arg(args);
-    let mut rep = Report::new("eval", &format!("corpus positions (seed {}): purity across call orders on one evaluator, side-to-move antisymmetry, colour-mirror symmetry, |score| < 32767", seed));
+    let mut rep = Report::new("eval", &format!("corpus positions (seed {}): purity across call orders on one evaluator, side-to-move antisymmetry, colour-mirror symmetry, |score| < 32767, independence of move counters / castling rights / en-passant square", seed));
     let positions = corpus(seed, 80, 30);
     let mut shared = crate::eval::Evaluator::new();
     let mut prev: Option<RPos> = None;
@@ -911,6 +968,22 @@ fn eval_cmd(args: &[String]) -> i32 {
         if flipped != -fresh || mirrored != fresh || fresh.abs() >= 32767 {
             rep.violation = Some(format!("{{\"input\": {{\"fen\": {}, \"mirror\": {}}}, \"real\": {{\"score\": {}, \"side_swapped\": {}, \"mirrored\": {}}}, \"expected\": \"side_swapped == -score, mirrored == score, |score| < 32767\"}}", jstr(&fen), jstr(&to_fen(&m)), fresh, flipped, mirrored));
             return rep.finish();
+        }
+        // "depends only on the piece placement and side to move": counters, castling rights and the en-passant square do not matter
+        if fen.ends_with(" 0 1") {
+            let fields: Vec<&str> = fen.split(' ').collect();
+            for (clk, mvn) in [("41", "30"), ("75", "120"), ("99", "300"), ("100", "4000"), ("200", "1")] {
+                let f2 = format!("{} {} {} {} {} {}", fields[0], fields[1], fields[2], fields[3], clk, mvn);
+                let f3 = format!("{} {} - - {} {}", fields[0], fields[1], clk, mvn);
+                for f in [f2, f3] {
+                    let got = crate::eval::Evaluator::new().evaluate(&Board::new(&f));
+                    rep.evals += 1;
+                    if got != fresh {
+                        rep.violation = Some(format!("{{\"input\": {{\"fen\": {}, \"same_placement_and_side_as\": {}}}, \"real\": {}, \"expected\": {}}}", jstr(&f), jstr(&fen), got, fresh));
+                        return rep.finish();
+                    }
+                }
+            }
         }
         prev = Some(m);
         rep.distinct += 1;
@@ -1259,7 +1332,7 @@ fn minimax_cmd(args: &[String]) -> i32 {
 fn mate_in_one(args: &[String]) -> i32 {
     let seed = seed_arg(args);
     let walks = num_arg(args, "walks", 200);
-    let mut rep = Report::new("mate-in-one", &format!("corpus positions (seed {}, {} walks): every position with a mate in one x depth 1..4; every position mixing moves that do / do not allow mate in one x depth 2..3; each also with half-move clocks 99, 98, 100 in the FEN (depth 1..2 resp. 2..3)", seed, walks));
+    let mut rep = Report::new("mate-in-one", &format!("corpus positions (seed {}, {} walks): every position with a mate in one x depth 1..4; every position mixing moves that do / do not allow mate in one x depth 2..3; each also with half-move clocks 99, 98, 100 in the FEN (depth 1..2 resp. 2..3); + a family of lost positions (cornered king and pawn against king and two rooks, placements enumerated with a stride, --lost of them) mixing such moves x depth 2..3", seed, walks));
     let mates_in_one = |p: &RPos| -> Vec<RMove> { legal_moves(p).into_iter().filter(|m| { let n = apply(p, *m); legal_moves(&n).is_empty() && in_check(&n, n.stm) }).collect() };
     for p in corpus(seed, walks, 40).iter() {
         let fen0 = to_fen(p);
@@ -1300,6 +1373,40 @@ fn mate_in_one(args: &[String]) -> i32 {
         rep.distinct += 1;
         if rep.distinct % 25 == 1 { rep.sample(jstr(&fen0)); }
     }
+    // LOST positions (second sentence under pressure): a cornered king with one pawn against king and two rooks - nearly every
+    // move runs into a mate the search can see, so every score sits at the bottom of the window and only the handling of the
+    // incumbent decides which move is answered. Placements enumerated with a stride; those mixing moves that do / do not allow
+    // mate in one are searched to depth 2 and 3 from a fresh engine.
+    let lost_n = num_arg(args, "lost", 400);
+    let mut lost_done = 0usize;
+    let mut idx = seed as usize % 7;
+    'lost: for wk in [0usize, 7, 1, 6, 8, 15] { for wp in [8usize, 9, 13, 14, 15, 16, 23] { for bk in [26usize, 27, 28, 29, 35, 36, 20, 21] { for r1 in 0..64usize { for r2 in (r1 + 1)..64usize {
+        idx += 1; if idx % 11 != 0 { continue; }
+        let occ = [wk, wp, bk, r1, r2];
+        let mut dup = false; for i in 0..5 { for j in 0..i { if occ[i] == occ[j] { dup = true; } } }
+        if dup { continue; }
+        let mut p = empty_pos(Col::W);
+        p.sq[wk] = Some((Col::W, Pc::K)); p.sq[wp] = Some((Col::W, Pc::P)); p.sq[bk] = Some((Col::B, Pc::K)); p.sq[r1] = Some((Col::B, Pc::R)); p.sq[r2] = Some((Col::B, Pc::R));
+        if !valid(&p) { continue; }
+        let lm = legal_moves(&p);
+        if lm.is_empty() || !mates_in_one(&p).is_empty() { continue; }
+        let allows: Vec<String> = lm.iter().filter(|m| !mates_in_one(&apply(&p, **m)).is_empty()).map(|m| m.uci()).collect();
+        if allows.is_empty() || allows.len() == lm.len() { continue; }
+        let fen = to_fen(&p);
+        let b = Board::new(&fen);
+        for d in 2..=3u8 {
+            let mut s = Searcher::new();
+            let (_, mv) = s.find_best_move(&b, d, None);
+            rep.evals += 1;
+            if let Some(m) = mv { if allows.contains(&m.to_algebraic()) {
+                rep.violation = Some(format!("{{\"input\": {{\"fen\": {}, \"depth\": {}}}, \"real\": {{\"bestmove\": {}}}, \"expected\": \"a move that does not allow mate in one (some exist)\"}}", jstr(&fen), d, jstr(&m.to_algebraic())));
+                return rep.finish();
+            } }
+        }
+        rep.distinct += 1; lost_done += 1;
+        if lost_done >= lost_n { break 'lost; }
+    } } } } }
+    rep.sample(jstr(&format!("lost-position family: {} positions", lost_done)));
     rep.finish()
 }
 
@@ -1434,6 +1541,29 @@ fn newgame_cmd(args: &[String]) -> i32 {
         a.verif_handle_command("ucinewgame"); b.verif_handle_command("ucinewgame"); used.verif_handle_command("ucinewgame");
         rep.distinct += 1;
         if rep.distinct % 4 == 1 { rep.sample(jstr(&fen)); }
+    }
+    // a LONG game without ucinewgame (thorough tier: --long=N searches of depth --longdepth): the tables fill up with tens of
+    // thousands of positions; whatever housekeeping that triggers must not make the answers depend on the key draw
+    let long_n = num_arg(args, "long", 0);
+    if long_n > 0 {
+        let ld = num_arg(args, "longdepth", 6) as u8;
+        let line = ["e2e4", "e7e5", "g1f3", "b8c6", "f1c4", "f8c5", "c2c3", "g8f6", "d2d3", "d7d6", "e1g1", "e8g8"];
+        let mut a = Flounder::new();
+        let mut b = Flounder::new();
+        for i in 0..long_n.min(line.len()) {
+            let cmd = if i == 0 { "position startpos".to_string() } else { format!("position startpos moves {}", line[..i].join(" ")) };
+            a.verif_handle_command(&cmd); b.verif_handle_command(&cmd);
+            let ba = a.verif_board().clone();
+            let ra = a.verif_searcher().find_best_move(&ba, ld, None); let na = a.verif_searcher().verif_nodes();
+            let rb = b.verif_searcher().find_best_move(&ba, ld, None); let nb = b.verif_searcher().verif_nodes();
+            rep.evals += 1;
+            let show = |r: &(i32, Option<Move>), n: u64| format!("score {} move {} nodes {}", r.0, r.1.map(|m| m.to_algebraic()).unwrap_or("0000".into()), n);
+            if ra != rb || na != nb {
+                rep.violation = Some(format!("{{\"input\": {{\"cmds\": \"searches of depth {} after each of the first {} commands `position startpos moves <prefix of {}>` in one game, no ucinewgame\", \"what\": \"two fresh engines (independent key draws)\"}}, \"real\": {}, \"expected\": {}}}", ld, i + 1, line.join(" "), jstr(&show(&rb, nb)), jstr(&show(&ra, na))));
+                return rep.finish();
+            }
+        }
+        rep.distinct += 1;
     }
     // games with a history: after shuffles that bring positions about twice the repetition rule is live in the search, and what it
     // does must not depend on the key draw either (scores, moves, node counts of two fresh engines after the same commands)
